@@ -275,6 +275,7 @@ func runC04(c *Ctx) {
 
 	// ---------- R6 ----------
 	checkLockGating(c, "C04-R6")
+	checkUnlockRestoresWipedKeys(c, "C04-R7")
 	// live crypto keys never wiped through an aliasing accessor outside the wipe functions
 	nZero := 0
 	for _, fn := range p.FuncsIn("waddrmgr") {
